@@ -1,6 +1,6 @@
 (* Props/C09.v — C09: latency control bounds queued stream data and never wedges. *)
 From Coq Require Import List NArith Ascii Bool Lia.
-From SV Require Import Model.StreamQuiet Proofs.Stream_quiet Lib.Bytes Model.Wire Model.Chan Model.Stream
+From SV Require Import Model.StreamQuiet Proofs.Stream_quiet Model.StreamDrain Proofs.Stream_drain Proofs.Stream_flow Proofs.Stream_props Lib.Bytes Model.Wire Model.Chan Model.Stream
   Proofs.Stream_basic Proofs.Stream_wrap Proofs.Stream_cb Proofs.Stream_lat Gen.Consts.
 Import ListNotations.
 Local Open Scope N_scope.
@@ -82,6 +82,31 @@ Theorem c09_paused_not_quiescent :
   run (world0 maxc lbs) evs = Ok w -> tf w sd = true -> quiescentb w = false.
 Proof. exact q_c09_paused_not_quiescent. Qed.
 Print Assumptions c09_paused_not_quiescent.
+
+(* (9) ... and the pause ENDS (Proofs/Stream_drain.v): from every reachable state without stale
+   delivery the eager schedule reaches, without raising, a state in which neither end is paused
+   (the probe's journey terminates; check_fullness is not part of the drain). *)
+Theorem c09_pause_ends :
+  forall maxc lbs evs w, run (world0 maxc lbs) evs = Ok w -> w_stale w = false ->
+  exists drain w', Forall eager_event drain /\ run w drain = Ok w' /\
+    (w_stale w' = true \/
+     (quiescent_eagerb w' = true /\ tf w' Client = false /\ tf w' Server = false)).
+Proof. exact d_c09_pause_ends. Qed.
+Print Assumptions c09_pause_ends.
+
+Example c09_ex_pause_ends :
+  match run (world0 65535 3) d_paused with
+  | Ok w =>
+    w_stale w = false /\ quiescentb w = false /\ tf w Client = true /\
+    s_conn (pS (sv w 0)) = true /\
+    match run w (drain_of w) with
+    | Ok w' => w_stale w' = false /\ quiescent_eagerb w' = true /\ tf w' Client = false /\
+               dst_written w' 0 = d_big /\ length (drain_of w) = 21%nat
+    | Crash _ => False
+    end
+  | Crash _ => False
+  end.
+Proof. exact drain_ex_paused. Qed.
 
 Theorem c09_consts : LATENCY_BUFFER_SIZE = 32768 /\ lenN rttest = 6.
 Proof. split; reflexivity. Qed.
